@@ -6,15 +6,15 @@ from __future__ import annotations
 import ast
 from typing import Any
 
-from ..astutil import (call_name, cfg_of, error_names, find_stmts, norm, returns_error, short, stmt_calls, truth_table,
-                       where)
+from ..astutil import (Locals, anon, call_name, cfg_of, error_names, find_stmts, local_names, norm, receivers, returns_error, short,
+                       stmt_calls, truth_table, where)
 from ..cfg import CFG, walk_own
 from ..core import Report
 from ..pyindex import FuncInfo, dotted
 
 # stores whose key is unique by construction or whose merge is intended: construct key -> reason (confirmed by reading)
 FROZEN = {
-    "parser.bodies.body_from_data::classes_by_name[prop.class_info.name]":
+    "parser.bodies.body_from_data::classes_by_name[_.class_info.name]":
         "re-registration of an already registered (or just created) model under its own class name after evolve(is_multipart_body=True)",
     "parser.properties.schemas.update_schemas_with_data::classes_by_reference[ref_path]":
         "ref_path is built from a key of components.schemas: keys of one mapping are distinct",
@@ -22,11 +22,19 @@ FROZEN = {
         "ref_path is built from a key of components.parameters: keys of one mapping are distinct",
     "parser.properties.schemas.parameter_from_data::classes_by_name[ClassName(name, config.field_prefix)]":
         "Parameters.classes_by_name is never read anywhere in the package (write-only table)",
-    "parser.properties.enum_property.EnumProperty.values_from_list::output[f'VALUE_NEGATIVE_{-value}']":
+    "parser.properties.enum_property.EnumProperty.values_from_list::<local dict>[f'VALUE_NEGATIVE_{-_}']":
         "integer members: the name is an injective function of the integer value (equal names = equal values)",
-    "parser.properties.enum_property.EnumProperty.values_from_list::output[f'VALUE_{value}']":
+    "parser.properties.enum_property.EnumProperty.values_from_list::<local dict>[f'VALUE_{_}']":
         "integer members: the name is an injective function of the integer value (equal names = equal values)",
 }
+
+
+def _reg_of(e: ast.AST, names: set[str]) -> str:
+    """registry named by expression e: a local accumulator by its own name, an attribute registry by its last component"""
+    if isinstance(e, ast.Name):
+        return e.id if e.id in names else ""
+    d = (dotted(e) or "").rsplit(".", 1)[-1]
+    return d if d in names and d in ATTR_REGISTRIES else ""
 
 
 def _registry_stores(f: FuncInfo, names: set[str]) -> list[tuple[ast.stmt, str, ast.expr, str]]:
@@ -42,8 +50,8 @@ def _registry_stores(f: FuncInfo, names: set[str]) -> list[tuple[ast.stmt, str, 
             if isinstance(n, ast.Assign):
                 for t in n.targets:
                     if isinstance(t, ast.Subscript):
-                        reg = (dotted(t.value) or "").rsplit(".", 1)[-1]
-                        if reg in names:
+                        reg = _reg_of(t.value, names)
+                        if reg:
                             out.append((st, reg, t.slice, "subscript"))
             # evolve(x, reg={**x.reg, K: V})  /  reg={K: V, **x.reg}
             if isinstance(n, ast.keyword) and n.arg in names and isinstance(n.value, ast.Dict):
@@ -52,12 +60,12 @@ def _registry_stores(f: FuncInfo, names: set[str]) -> list[tuple[ast.stmt, str, 
                         if k is not None:
                             out.append((st, n.arg, k, "spread"))
             if isinstance(n, ast.Call) and isinstance(n.func, ast.Attribute) and n.func.attr in ("setdefault",):
-                reg = (dotted(n.func.value) or "").rsplit(".", 1)[-1]
-                if reg in names and n.args:
+                reg = _reg_of(n.func.value, names)
+                if reg and n.args:
                     out.append((st, reg, n.args[0], "setdefault"))
             if isinstance(n, ast.Call) and isinstance(n.func, ast.Attribute) and n.func.attr == "add":
-                reg = (dotted(n.func.value) or "").rsplit(".", 1)[-1]
-                if reg in names and n.args:
+                reg = _reg_of(n.func.value, names)
+                if reg and n.args:
                     out.append((st, reg, n.args[0], "add"))
     # nested functions are separate FuncInfos; drop statements that belong to them
     nested = [g for g in ast.walk(f.node) if isinstance(g, (ast.FunctionDef, ast.AsyncFunctionDef)) and g is not f.node]
@@ -73,15 +81,48 @@ def _membership_tests(f: FuncInfo, reg: str) -> list[tuple[ast.stmt, str]]:
             continue
         for n in walk_own(st):
             if isinstance(n, ast.Compare) and len(n.ops) == 1 and isinstance(n.ops[0], (ast.In, ast.NotIn)):
-                if (dotted(n.comparators[0]) or "").rsplit(".", 1)[-1] == reg:
+                if _reg_of(n.comparators[0], {reg}) == reg:
                     out.append((st, norm(n.left)))
             if isinstance(n, ast.Call) and isinstance(n.func, ast.Attribute) and n.func.attr in ("pop", "get") and n.args:
-                if (dotted(n.func.value) or "").rsplit(".", 1)[-1] == reg:
+                if _reg_of(n.func.value, {reg}) == reg:
                     out.append((st, norm(n.args[0])))
     return out
 
 
-REGISTRIES = {"classes_by_name", "classes_by_reference", "properties", "used_python_names", "output", "unique_parameters"}
+# Registries reached through attributes are part of the data model and are named; registries that are local variables are found
+# by role: a local of the function (or of the enclosing function, for closures) initialised to an empty dict / set into which
+# keyed stores are made.  Sets that only collect text lines (import statements) are not registries of named artefacts.
+ATTR_REGISTRIES = {"classes_by_name", "classes_by_reference"}
+REGISTRIES = ATTR_REGISTRIES  # kept for importers
+
+
+def local_registries(f: FuncInfo) -> dict[str, str]:
+    """local accumulator name -> kind ('dict' | 'set') for f and its enclosing functions"""
+    out: dict[str, str] = {}
+    g: FuncInfo | None = f
+    while g is not None:
+        lc = Locals(g.node)
+        for name, ds in lc.defs.items():
+            for k, _, v in ds:
+                if k != "assign" or v is None:
+                    continue
+                t = norm(v)
+                if t in ("{}", "dict()"):
+                    out.setdefault(name, "dict")
+                elif t == "set()":
+                    out.setdefault(name, "set")
+        g = g.parent
+    # a set that only ever receives string literals / f-strings collects text (import lines): duplicates are harmless
+    for name, kind in list(out.items()):
+        if kind == "set":
+            adds = [c for r, c in receivers(f.node, "add") if r == name]
+            if adds and all(c.args and isinstance(c.args[0], (ast.Constant, ast.JoinedStr)) for c in adds):
+                del out[name]
+    return out
+
+
+def registry_label(reg: str, locs: dict[str, str]) -> str:
+    return f"<local {locs[reg]}>" if reg in locs else reg
 
 
 def check_registries(rep: Report, ctx: Any, rid: str) -> None:
@@ -95,18 +136,16 @@ def check_registries(rep: Report, ctx: Any, rid: str) -> None:
     for f in ix.all_functions:
         if not f.module.name.startswith("openapi_python_client.parser"):
             continue
-        stores = _registry_stores(f, REGISTRIES)
+        locs = local_registries(f)
+        stores = _registry_stores(f, ATTR_REGISTRIES | set(locs))
         if not stores:
             continue
         cfg = cfg_of(f, cfgs)
         errs = error_names(f.node)
+        lnames = local_names(f.node) | (local_names(f.parent.node) if f.parent is not None else set())
         for st, reg, key, kind in stores:
-            if reg == "output" and f.name != "values_from_list":
-                continue
-            if reg == "properties" and f.name != "_add_if_no_conflict":
-                continue
             n_stores += 1
-            ckey = f"{short(f)}::{reg}[{norm(key)}]"
+            ckey = f"{short(f)}::{registry_label(reg, locs)}[{anon(key, lnames)}]"
             if ckey in FROZEN:
                 rep.ok(rid, ckey, "frozen: unique by construction", FROZEN[ckey], nontrivial=False)
                 continue
@@ -114,14 +153,15 @@ def check_registries(rep: Report, ctx: Any, rid: str) -> None:
             same = [t for t, k in tests if k == norm(key)]
             other = sorted({k for t, k in tests if k != norm(key)})
             if kind == "setdefault":
-                if reg == "endpoints_by_tag":
-                    continue
-            if reg == "properties":
+                # setdefault is itself test-and-store: an existing entry is kept and shared (endpoints grouped by tag)
+                rep.ok(rid, ckey, "setdefault", "test-and-store in one operation", nontrivial=False)
+                continue
+            if f.name == "_add_if_no_conflict" and reg in locs:
                 # uniqueness scope is python_name: the comparison loop must dominate the store on every path
-                def is_pyname_loop(n: object) -> bool:
+                def is_pyname_loop(n: object, reg: str = reg) -> bool:
                     if not isinstance(n, ast.For):
                         return False
-                    if "properties" not in norm(n.iter):
+                    if reg not in norm(n.iter):
                         return False
                     body_txt = " ".join(norm(s) for s in n.body)
                     return "python_name" in body_txt and "_resolve_naming_conflict" in body_txt
@@ -131,11 +171,13 @@ def check_registries(rep: Report, ctx: Any, rid: str) -> None:
                                          "python_name collision loop ending in _resolve_naming_conflict", where(f, st),
                           lhs="store " + norm(st)[:80], rhs="dominated by `for other_prop in properties.values(): ... python_name ...`")
                 continue
-            if reg == "used_python_names":
+            if f.name == "_check_parameters_for_conflicts" and reg in locs:
                 dominated = any(cfg.is_dominated_by(st, lambda n, t=t: n is t) for t in same)
                 if not dominated:
                     # alternative: the modification is recorded before the store on every path (a re-check is forced)
-                    dominated = cfg.is_dominated_by(st, lambda n: isinstance(n, ast.stmt) and bool(stmt_calls(n, "modified_params.add")))
+                    mods = modification_sets(f)
+                    dominated = cfg.is_dominated_by(st, lambda n: isinstance(n, ast.stmt) and any(
+                        r in mods for r, c in receivers(n, "add") if any(c is x for x in walk_own(n))))
                 rep.check(dominated, rid, ckey, "store into the per-operation name table without a dominating pop/membership "
                                                 "test of the same key expression", where(f, st),
                           lhs="store " + norm(st)[:80], rhs=f"dominated by pop/in on `{norm(key)}`")
@@ -195,18 +237,25 @@ def check_param_conflicts(rep: Report, ctx: Any, rid: str, cfgs: "dict[str, CFG]
     f = ep.methods.get("_check_parameters_for_conflicts")
     rep.require(f, "Endpoint._check_parameters_for_conflicts")
     cfg = cfg_of(f, cfgs)
+    reserved = reserved_lists(f)
     loops = [n for n in ast.walk(f.node) if isinstance(n, ast.For) and any(
-        isinstance(x, ast.Name) and x.id == "reserved_names" for s_ in n.body for x in ast.walk(s_))]
-    rep.require(loops, "parameter loop in _check_parameters_for_conflicts")
+        isinstance(x, ast.Compare) and isinstance(x.ops[0], ast.In) and norm(x.comparators[0]) in reserved for s_ in n.body for x in ast.walk(s_))]
+    rep.require(loops, "parameter loop (with the reserved-name test) in _check_parameters_for_conflicts")
     loop = loops[0]
     renames = [s for s in cfg.stmts() if stmt_calls(s, "set_python_name")]
     rep.floor("parameter_renames", len(renames), 3)
+    mods = modification_sets(f)
+    rep.require(mods, "the set handed to the recursive re-run (previously_modified_params=...)")
+
+    def records(n: object) -> bool:
+        return isinstance(n, ast.stmt) and any(r in mods and any(c is x for x in walk_own(n)) for r, c in receivers(n, "add"))
+
     for s in renames:
         # every path from the rename back to the loop head records the modification (forcing the recursive re-run)
-        ok = cfg.every_path_passes(s, loop, lambda n: isinstance(n, ast.stmt) and bool(stmt_calls(n, "modified_params.add")))
-        rep.check(ok, rid, f"{short(f)}::rename->{norm(s)[:60]}",
+        ok = cfg.every_path_passes(s, loop, records)
+        rep.check(ok, rid, f"{short(f)}::rename->{anon(s, local_names(f.node))[:60]}",
                   "a parameter is renamed but the change is not recorded in modified_params on every path: no re-check runs",
-                  where(f, s), lhs=norm(s)[:80], rhs="followed by modified_params.add on every path to the next iteration")
+                  where(f, s), lhs=norm(s)[:80], rhs="followed by <modified set>.add on every path to the next iteration")
     tail = [s for s in cfg.stmts() if isinstance(s, ast.Return) and s.value is not None and stmt_calls(s, "_check_parameters_for_conflicts")]
     rep.check(bool(tail), rid, f"{short(f)}::re-run", "the conflict check no longer re-runs itself after modifications",
               where(f, f.node), lhs="recursive return", rhs="present")
@@ -227,6 +276,28 @@ def check_param_conflicts(rep: Report, ctx: Any, rid: str, cfgs: "dict[str, CFG]
         any(returns_error(r, set()) for c_ in cmp_ for r in ast.walk(c_) if isinstance(r, ast.stmt))
     rep.check(ok, rid, f"{short(g)}::re-check", "raw-name fallback is not followed by an equality test that returns an error",
               where(g, g.node), lhs="set_python_name(..., skip_snake_case=True) x2", rhs="then `if first.python_name == second.python_name: return PropertyError`")
+
+
+def modification_sets(f: FuncInfo) -> set[str]:
+    """locals handed to the recursive call as previously_modified_params: a change recorded there forces a re-check"""
+    out = set()
+    for c in ast.walk(f.node):
+        if isinstance(c, ast.Call) and call_name(c).endswith("_check_parameters_for_conflicts"):
+            for k in c.keywords:
+                if k.arg == "previously_modified_params" and isinstance(k.value, ast.Name):
+                    out.add(k.value.id)
+    return out
+
+
+def reserved_lists(f: FuncInfo) -> dict[str, list[str]]:
+    """locals bound to a literal list / tuple / set of strings (reserved identifier tables)"""
+    out = {}
+    for name, ds in Locals(f.node).defs.items():
+        for k, _, v in ds:
+            if k == "assign" and isinstance(v, (ast.List, ast.Tuple, ast.Set)) and v.elts and all(
+                    isinstance(e, ast.Constant) and isinstance(e.value, str) for e in v.elts):
+                out[name] = [e.value for e in v.elts]
+    return out
 
 
 def _atoms(e: ast.expr) -> list[str]:
@@ -259,7 +330,7 @@ def check_module_files(rep: Report, ctx: Any, rid: str) -> None:
                             done.discard(id(sub))
                             continue
                         n += 1
-                        key = f"{short(f)}::file[{norm(name_expr[0])}]"
+                        key = f"{short(f)}::file[{anon(name_expr[0], local_names(f.node))}]@{anon(loop.iter, local_names(f.node))}"
                         body_txt = " ".join(norm(s) for s in loop.body)
                         guarded = any(isinstance(c, ast.Compare) and isinstance(c.ops[0], (ast.In, ast.NotIn)) and
                                       norm(name_expr[0]) in norm(c.left) for s in loop.body for c in ast.walk(s)
